@@ -90,7 +90,8 @@ class Result:
 
 
 def discharge(E, obligations, jobs=16, timeout_ms=20000, rlimit=None, use_cvc5=True, model_phase=True, executor=None):
-    axioms = prelude.all_axioms() + list(E.extra_axioms)
+    from . import arith
+    axioms = prelude.all_axioms() + list(E.extra_axioms) + (arith.axioms(E) if ('rmul' in E.uf or 'rdiv' in E.uf) else [])
     tasks = []
     for ob in obligations:
         if ob.expect == "sat":
